@@ -479,3 +479,298 @@ Proof.
   - apply Hn. apply (F bs Hl).
   - apply Hn. exact A.
 Qed.
+
+(* ---- end to end: what is handed over admits exactly the configured points --------------------------- *)
+Lemma ele_iff a b : ele a b = true <-> ele_p a b.
+Proof.
+  destruct a, b; cbn; try tauto; try (split; [discriminate | contradiction]).
+  apply Qleb_le.
+Qed.
+Lemma in_boundsb_iff l u c : in_boundsb l u c = true <-> in_bounds l u c.
+Proof. unfold in_boundsb, in_bounds. rewrite andb_true_iff, !ele_iff. tauto. Qed.
+
+Lemma satb_iff af r v : satb af r v = true <-> sat af r v.
+Proof.
+  unfold satb, sat. destruct (r_eq r); [apply Qeqb_eq|]. destruct af; apply Qleb_le.
+Qed.
+
+Lemma bool_eq_iff (a b : bool) : (a = true <-> b = true) -> a = b.
+Proof.
+  destruct a, b; intros [H1 H2]; try reflexivity.
+  - symmetry. apply H1. reflexivity.
+  - apply H2. reflexivity.
+Qed.
+
+Lemma combine_fst_snd {A B} (l : list (A * B)) : combine (map fst l) (map snd l) = l.
+Proof. induction l as [|[a b] l IH]; cbn; [reflexivity | rewrite IH; reflexivity]. Qed.
+
+Lemma combine_combine {A B} (a : list A) (b : list B) :
+  combine (map fst (combine a b)) (map snd (combine a b)) = combine a b.
+Proof. apply combine_fst_snd. Qed.
+
+(* bounds_okb on a list of pairs of the same length as the values is the Forall2 of the theorem *)
+Lemma bounds_okb_all bs : forall cs, List.length bs = List.length cs ->
+  (bounds_okb (map fst bs) (map snd bs) cs = true <-> all_in_bounds bs cs).
+Proof.
+  unfold bounds_okb, all_in_bounds. rewrite combine_fst_snd.
+  induction bs as [|b bs IH]; intros [|c cs] H; try discriminate; cbn [forall2b].
+  - split; [constructor | reflexivity].
+  - injection H as H. rewrite andb_true_iff, in_boundsb_iff, (IH cs H). split.
+    + intros [A B]. constructor; assumption.
+    + intros F. inversion F; subst. split; assumption.
+Qed.
+
+Lemma bounds_okb_app lo1 hi1 lo2 hi2 c1 c2 :
+  List.length lo1 = List.length c1 -> List.length hi1 = List.length c1 ->
+  bounds_okb (lo1 ++ lo2) (hi1 ++ hi2) (c1 ++ c2) = bounds_okb lo1 hi1 c1 && bounds_okb lo2 hi2 c2.
+Proof.
+  unfold bounds_okb. revert hi1 c1. induction lo1 as [|l lo1 IH]; intros [|h hi1] [|c c1] H1 H2; try discriminate.
+  - reflexivity.
+  - cbn [app combine forall2b]. injection H1 as H1. injection H2 as H2. rewrite (IH hi1 c1 H1 H2), andb_assoc. reflexivity.
+Qed.
+
+(* the value the dict callables hand over for all rows at once, as a boolean *)
+Definition rows_okb (rows : list row) (raw : list Q) : bool :=
+  match norm_values rows (map (fun v => [v]) raw) with
+  | Some vs => forall2b (fun r v => match v with [x] => satb false r x | _ => false end) rows vs
+  | None => false
+  end.
+
+Lemma rows_okb_cons r t raw :
+  rows_okb (r :: t) raw =
+  match nth_error raw (r_idx r) with Some c => satb false r (norm_value r c) | None => false end && rows_okb t raw.
+Proof.
+  unfold rows_okb. cbn [norm_values]. rewrite nth_error_map.
+  destruct (nth_error raw (r_idx r)) as [c|]; cbn [option_map]; [|reflexivity].
+  destruct (norm_values t (map (fun v => [v]) raw)) as [rest|]; cbn [map forall2b]; [reflexivity|].
+  rewrite andb_false_r. reflexivity.
+Qed.
+
+Lemma rows_okb_iff rows raw : rows_okb rows raw = true <-> rows_sat false rows raw.
+Proof.
+  unfold rows_sat. induction rows as [|r t IH].
+  - unfold rows_okb. cbn. split; [constructor | reflexivity].
+  - rewrite rows_okb_cons, andb_true_iff, IH. split.
+    + intros [A B]. constructor; [|exact B].
+      destruct (nth_error raw (r_idx r)) as [c|]; [|discriminate]. exists c. split; [reflexivity | apply satb_iff; exact A].
+    + intros F. inversion F as [|? ? (c & Hc & Hs) B]; subst. split; [|exact B].
+      rewrite Hc. apply satb_iff. exact Hs.
+Qed.
+
+Theorem rows_okb_bounds bs raw :
+  List.length bs = List.length raw -> Forall (fun b => sane (fst b) (snd b)) bs ->
+  rows_okb (normalize_bounds false bs) raw = bounds_okb (map fst bs) (map snd bs) raw.
+Proof.
+  intros Hl Hs. apply bool_eq_iff. rewrite rows_okb_iff, (bounds_okb_all bs raw Hl).
+  symmetry. apply feasible_iff; assumption.
+Qed.
+
+(* ---- lengths and well-formedness survive the mask ----------------------------------------------------- *)
+Lemma gather_all_true {A B} (k : list B) : forall (l : list A), (List.length l <= List.length k)%nat ->
+  gather (map (fun _ => true) k) l = l.
+Proof.
+  induction k as [|b k IH]; intros [|x l] H; cbn in *; try reflexivity; try lia.
+  rewrite IH by lia. reflexivity.
+Qed.
+
+Lemma gather_length_eq {A B} (k : list bool) : forall (a : list A) (b : list B),
+  List.length a = List.length b -> List.length (gather k a) = List.length (gather k b).
+Proof.
+  induction k as [|x k IH]; intros [|a0 a] [|b0 b] H; try discriminate; try reflexivity.
+  - destruct x; reflexivity.
+  - injection H as H. destruct x; cbn; rewrite (IH a b H); reflexivity.
+Qed.
+
+Lemma sub_offsets_length : forall b o, List.length b = List.length o -> List.length (sub_offsets b o) = List.length o.
+Proof. induction b as [|e b IH]; intros [|q o] H; try discriminate; cbn; [reflexivity | rewrite IH; auto]. Qed.
+
+Lemma sane_shift l u q : sane l u -> sane (esub_r l q) (esub_r u q).
+Proof.
+  destruct l as [|a|], u as [|b|]; cbn; auto.
+  intros [H|H]; [left; lra | right].
+  assert (E : Qabs (b - q - (a - q)) == Qabs (b - a)) by (apply Qabs_wd; ring).
+  apply Qle_trans with (Qabs (b - a)); [exact H|]. apply Qle_lteq. right. symmetry. exact E.
+Qed.
+
+Lemma sane_sub_offsets : forall b u o,
+  Forall (fun p => sane (fst p) (snd p)) (combine b u) ->
+  Forall (fun p => sane (fst p) (snd p)) (combine (sub_offsets b o) (sub_offsets u o)).
+Proof.
+  induction b as [|e b IH]; intros u o H.
+  - cbn. constructor.
+  - destruct u as [|f u]; [cbn; destruct o; constructor|].
+    destruct o as [|q o]; [cbn; constructor|].
+    cbn [sub_offsets combine] in *. inversion H; subst. constructor.
+    + cbn [fst snd] in *. apply sane_shift. assumption.
+    + apply IH. assumption.
+Qed.
+
+Lemma combine_gather {A B} (k : list bool) : forall (a : list A) (b : list B),
+  List.length a = List.length b -> combine (gather k a) (gather k b) = gather k (combine a b).
+Proof.
+  induction k as [|x k IH]; intros [|a0 a] [|b0 b] H; try discriminate; try reflexivity.
+  - destruct x; reflexivity.
+  - injection H as H. destruct x; cbn; rewrite (IH a b H); reflexivity.
+Qed.
+
+Definition wf_lin (n : nat) (lc : lincons) : Prop :=
+  List.length (l_lb lc) = List.length (l_A lc) /\ List.length (l_ub lc) = List.length (l_A lc) /\
+  Forall (fun a => List.length a = n) (l_A lc) /\
+  Forall (fun b => sane (fst b) (snd b)) (lin_pairs lc).
+
+Lemma masked_wf mask x0 lc n : wf_lin n lc ->
+  let ml := masked_linear mask x0 lc in
+  List.length (l_lb ml) = List.length (l_A ml) /\ List.length (l_ub ml) = List.length (l_A ml) /\
+  Forall (fun b => sane (fst b) (snd b)) (lin_pairs ml).
+Proof.
+  intros (H1 & H2 & H3 & H4). destruct mask as [m|]; cbn zeta; [|cbn [masked_linear]; auto].
+  cbn [masked_linear l_A l_lb l_ub lin_pairs].
+  set (keep := map (fun a => forallb is_zero (gather (map negb m) a)) (l_A lc)).
+  rewrite !map_length.
+  assert (L1 : List.length (gather keep (l_lb lc)) = List.length (gather keep (l_A lc))) by (apply gather_length_eq; exact H1).
+  assert (L2 : List.length (gather keep (l_ub lc)) = List.length (gather keep (l_A lc))) by (apply gather_length_eq; exact H2).
+  split; [|split].
+  - rewrite sub_offsets_length; rewrite map_length; auto.
+  - rewrite sub_offsets_length; rewrite map_length; auto.
+  - unfold lin_pairs. cbn [l_lb l_ub]. apply sane_sub_offsets.
+    rewrite combine_gather by congruence. apply Forall_gather. exact H4.
+Qed.
+
+(* ---- the three parts of the feasible set --------------------------------------------------------------- *)
+Lemma bounds_part mask lo hi xf :
+  Forall (fun e => e <> PInf) lo -> Forall (fun e => e <> NInf) hi ->
+  match exposed_bounds mask lo hi with Some (l, u) => bounds_okb l u xf | None => true end =
+  bounds_okb (gmask mask lo) (gmask mask hi) xf.
+Proof.
+  intros Hlo Hhi. destruct (exposed_bounds mask lo hi) as [[l u]|] eqn:E.
+  - destruct (bounds_exposed mask lo hi) as [_ H]. rewrite E in H.
+    specialize (H ltac:(discriminate)). injection H as -> ->. reflexivity.
+  - symmetry. apply bounds_absent_harmless; assumption.
+Qed.
+
+Definition config_lin (mask : option (list bool)) (x0 : list Q) (lc : lincons) (xf : list Q) : bool :=
+  let full := match mask with Some m => scatter m xf x0 | None => xf end in
+  let keep := match mask with
+              | Some m => map (fun a => forallb is_zero (gather (map negb m) a)) (l_A lc)
+              | None => map (fun _ => true) (l_A lc)
+              end in
+  bounds_okb (gather keep (l_lb lc)) (gather keep (l_ub lc)) (matvec (gather keep (l_A lc)) full).
+
+Lemma lin_part mask x0 lc xf : wf_lin (List.length x0) lc ->
+  (forall m, mask = Some m -> List.length m = List.length x0 /\ List.length xf = count_true m) ->
+  let ml := masked_linear mask x0 lc in
+  bounds_okb (l_lb ml) (l_ub ml) (matvec (l_A ml) xf) = config_lin mask x0 lc xf.
+Proof.
+  intros (H1 & H2 & H3 & H4) Hm. destruct mask as [m|]; cbn zeta.
+  - destruct (Hm m eq_refl) as [Lm Lx]. unfold config_lin. apply masked_linear_exact; auto.
+    eapply Forall_impl; [|exact H3]. intros a Ha. cbn in Ha. congruence.
+  - unfold config_lin. cbn [masked_linear]. rewrite !gather_all_true by lia. reflexivity.
+Qed.
+
+Lemma dict_part nlb lb ub mv c :
+  List.length nlb = List.length c -> List.length lb = List.length mv -> List.length ub = List.length mv ->
+  Forall (fun b => sane (fst b) (snd b)) nlb -> Forall (fun b => sane (fst b) (snd b)) (combine lb ub) ->
+  rows_okb (normalize_bounds false (nlb ++ combine lb ub)) (c ++ mv) =
+  bounds_okb (map fst nlb) (map snd nlb) c && bounds_okb lb ub mv.
+Proof.
+  intros L1 L2 L3 S1 S2. rewrite rows_okb_bounds.
+  - rewrite !map_app. rewrite bounds_okb_app by (rewrite map_length; exact L1).
+    f_equal. unfold bounds_okb. rewrite combine_combine. reflexivity.
+  - rewrite !app_length, combine_length. lia.
+  - apply Forall_app. split; assumption.
+Qed.
+
+(* ---- the theorem ------------------------------------------------------------------------------------------ *)
+Definition wf_problem (p : problem) : Prop :=
+  Forall (fun e => e <> PInf) (p_lower p) /\ Forall (fun e => e <> NInf) (p_upper p) /\
+  (forall bs, p_nl p = Some bs -> Forall (fun b => sane (fst b) (snd b)) bs) /\
+  (forall lc, p_lin p = Some lc -> wf_lin (List.length (p_x0 p)) lc).
+
+Definition wf_point (p : problem) (c xf : list Q) : Prop :=
+  (forall m, p_mask p = Some m -> List.length m = List.length (p_x0 p) /\ List.length xf = count_true m) /\
+  List.length c = match p_nl p with Some bs => List.length bs | None => 0%nat end.
+
+Theorem handed_equiv_configured p h c xf :
+  construct p = Some h -> wf_problem p -> wf_point p c xf ->
+  handed_feasible h c xf = config_feasible p c xf.
+Proof.
+  intros Hc (Wlo & Whi & Wnl & Wlin) (Wm & Wc).
+  unfold construct in Hc. destruct (validate p); [|discriminate]. cbn [negb] in Hc. injection Hc as <-.
+  unfold handed_feasible, config_feasible, raw_values. cbn [h_bounds h_de h_lin h_nl h_rows].
+  rewrite (bounds_part (p_mask p) (p_lower p) (p_upper p) xf Wlo Whi).
+  rewrite <- andb_assoc. f_equal.
+  destruct (p_lin p) as [lc|] eqn:El; cbn [option_map].
+  - specialize (Wlin lc eq_refl).
+    pose proof (lin_part (p_mask p) (p_x0 p) lc xf Wlin Wm) as HL. cbn zeta in HL.
+    pose proof (masked_wf (p_mask p) (p_x0 p) lc _ Wlin) as (M1 & M2 & M3). cbn zeta in M1, M2, M3.
+    fold (config_lin (p_mask p) (p_x0 p) lc xf). rewrite <- HL.
+    set (ml := masked_linear (p_mask p) (p_x0 p) lc) in *.
+    destruct (is_de (p_method p)); [reflexivity|].
+    fold (rows_okb (normalize_bounds false (match p_nl p with Some bs => bs | None => [] end ++ lin_pairs ml))
+                   (c ++ matvec (l_A ml) xf)).
+    unfold lin_pairs. rewrite dict_part.
+    + destruct (p_nl p) as [bs|]; [apply andb_comm|].
+      destruct c; [|discriminate]. cbn. rewrite andb_true_r. reflexivity.
+    + destruct (p_nl p); [symmetry; exact Wc | destruct c; [reflexivity | discriminate]].
+    + unfold matvec. rewrite map_length. exact M1.
+    + unfold matvec. rewrite map_length. exact M2.
+    + destruct (p_nl p) as [bs|]; [apply Wnl; reflexivity | constructor].
+    + exact M3.
+  - destruct (is_de (p_method p)); [reflexivity|].
+    fold (rows_okb (normalize_bounds false (match p_nl p with Some bs => bs | None => [] end ++ [])) (c ++ [])).
+    rewrite !app_nil_r. cbn [andb].
+    destruct (p_nl p) as [bs|].
+    + apply rows_okb_bounds; [symmetry; exact Wc | apply Wnl; reflexivity].
+    + destruct c; [reflexivity | discriminate].
+Qed.
+
+(* ---- the decidable well-formedness tests imply the hypotheses of the theorem ---------------------------- *)
+Lemma saneb_sane l u : saneb l u = true -> sane l u.
+Proof.
+  destruct l as [|a|], u as [|b|]; cbn; try discriminate; auto.
+  intros H. apply orb_prop in H as [H|H]; [left; apply Qeqb_eq; exact H | right; apply Qleb_le; exact H].
+Qed.
+
+Lemma forallb_Forall {A} (f : A -> bool) (P : A -> Prop) (l : list A) :
+  (forall x, f x = true -> P x) -> forallb f l = true -> Forall P l.
+Proof.
+  intros H. induction l as [|x l IH]; cbn; [constructor|].
+  intros E. apply andb_prop in E as [E1 E2]. constructor; [apply H; exact E1 | apply IH; exact E2].
+Qed.
+
+Lemma wf_linb_wf n lc : wf_linb n lc = true -> wf_lin n lc.
+Proof.
+  unfold wf_linb, wf_lin. intros H.
+  apply andb_prop in H as [H H4]. apply andb_prop in H as [H H3]. apply andb_prop in H as [H1 H2].
+  repeat split.
+  - apply Nat.eqb_eq; exact H1.
+  - apply Nat.eqb_eq; exact H2.
+  - eapply forallb_Forall; [|exact H3]. intros a Ha. apply Nat.eqb_eq. exact Ha.
+  - eapply forallb_Forall; [|exact H4]. intros b Hb. apply saneb_sane. exact Hb.
+Qed.
+
+Lemma wf_problemb_wf p : wf_problemb p = true -> wf_problem p.
+Proof.
+  unfold wf_problemb, wf_problem. intros H.
+  apply andb_prop in H as [H H4]. apply andb_prop in H as [H H3]. apply andb_prop in H as [H1 H2].
+  split; [|split; [|split]].
+  - eapply forallb_Forall; [|exact H1]. intros e He E. subst e. discriminate.
+  - eapply forallb_Forall; [|exact H2]. intros e He E. subst e. discriminate.
+  - intros bs0 E. rewrite E in H3. eapply forallb_Forall; [|exact H3]. intros b Hb. apply saneb_sane. exact Hb.
+  - intros lc0 E. rewrite E in H4. apply wf_linb_wf. exact H4.
+Qed.
+
+Lemma wf_pointb_wf p c xf : wf_pointb p c xf = true -> wf_point p c xf.
+Proof.
+  unfold wf_pointb, wf_point. intros H. apply andb_prop in H as [H1 H2]. split.
+  - intros m E. rewrite E in H1. apply andb_prop in H1 as [A B]. split; apply Nat.eqb_eq; assumption.
+  - apply Nat.eqb_eq. exact H2.
+Qed.
+
+(* the form used by the correspondence: decidable hypotheses *)
+Theorem handed_equiv_configured_b p h c xf :
+  construct p = Some h -> wf_problemb p = true -> wf_pointb p c xf = true ->
+  handed_feasible h c xf = config_feasible p c xf.
+Proof.
+  intros Hc H1 H2. apply handed_equiv_configured; [exact Hc | apply wf_problemb_wf; exact H1 | apply wf_pointb_wf; exact H2].
+Qed.
